@@ -8,6 +8,8 @@ from fractions import Fraction
 
 import numpy as np
 
+from hyverif.core import digest
+
 from hyverif.oracles.gridgeom import Geom
 
 ID = "C07"
@@ -138,6 +140,16 @@ def run_geom_case(ctx, case):
     ctx.evaluated(njudged)
     ctx.check("coord2cell.inside", bad is None, "coord2cell|inside-footprint", case,
               lambda: {"x,y,got,expected,edge_dist": bad})
+    # ---- the same points / cell numbers in another memory layout or container
+    # (np.array([x, y]).T is Fortran-ordered)
+    prng = np.random.default_rng(digest(pts) % 2 ** 32)
+    ctx.presentations("coord2cell", lambda p_: np.asarray(gr.coord2cell(p_)), [pts], got,
+                      case, prng, n=1, rtol=0.0)
+    ci = np.asarray(cells, dtype=np.int64)
+    ctx.presentations("cell2coord", lambda c_: np.asarray(gr.cell2coord(c_)), [ci], xy,
+                      case, prng, n=1, rtol=0.0)
+    ctx.presentations("cell2rowcol", lambda c_: np.asarray(gr.cell2rowcol(c_)), [ci],
+                      np.asarray(gr.cell2rowcol(ci)), case, prng, n=1, rtol=0.0)
     # ---- outside points
     dists = [1e-9 * 4, 1e-6, 0.5, 1.0 - 1e-6, 1.0, 1.5, 10.0, 1e3, 1e6]
     x0, x1 = xll, xll + ncols * csz
